@@ -352,11 +352,60 @@ fn typed_histories<B: Backend>(opts: &Opts, rep: &mut Report) {
     }
 }
 
+/// families of related keys (one byte apart, low-order end first) used back to back on one thread:
+/// each member seals and opens its own token, then all tokens are opened forwards and backwards
+fn related_keys<B: Backend>(opts: &Opts, rep: &mut Report) {
+    if opts.shard != 3 % opts.nshards && opts.only.is_none() {
+        return;
+    }
+    let stream = format!("c01.{}.related-keys", B::NAME);
+    let mut rng = Rng::derive(opts.seed, &stream, 0);
+    for p in [Purp::Local, Purp::Public] {
+        if p == Purp::Public && B::VER == 1 {
+            continue; // RSA keys cannot be derived one byte apart
+        }
+        for round in 0..opts.size(2, 10) {
+            let len = if p == Purp::Public && B::VER == 3 { 48 } else { 32 };
+            let mut base = if round == 0 { vec![0u8; len] } else { rng.bytes(len) };
+            base[0] &= 0x7f;
+            let mut members: Vec<KeyPair<B>> = vec![];
+            for i in 0..32usize {
+                let mut raw = base.clone();
+                raw[len - 1 - i] = raw[len - 1 - i].wrapping_add(1 + (i as u8 % 5));
+                let sealing = if p == Purp::Public && B::VER != 3 {
+                    [&raw[..], &ed25519_dalek::SigningKey::from_bytes(raw[..32].try_into().unwrap()).verifying_key().to_bytes()[..]].concat()
+                } else {
+                    raw
+                };
+                if let Ok(k) = KeyPair::<B>::from_raw(p, &sealing) {
+                    members.push(k);
+                }
+            }
+            let aad: &[u8] = if B::HAS_AAD && round % 2 == 1 { b"a" } else { b"" };
+            let mut toks = vec![];
+            for (i, k) in members.iter().enumerate() {
+                let msg = rng.bytes(1 + i);
+                one::<B>(rep, k, "related-key", &msg, b"f", aad, false);
+                if let Ok(Ok(t)) = guard(|| k.seal(&msg, b"", aad)) {
+                    toks.push((i, t, msg));
+                }
+            }
+            for (i, t, msg) in toks.iter().chain(toks.iter().rev()) {
+                if !matches!(guard(|| members[*i].open(t, aad)), Ok(Ok((m, _))) if m == *msg) {
+                    rep.violation(&format!("C01|{}|{}|own-token-rejected-in-sequence:related-keys", B::NAME, p.name()), json!({"backend": B::NAME, "purpose": p.name(), "member": i, "token": t.chars().take(300).collect::<String>(), "key": hx_short(&members[*i].raw().0)}));
+                    break;
+                }
+            }
+        }
+    }
+}
+
 fn backend<B: Backend>(opts: &Opts, rep: &mut Report) {
     let lens = payload_lengths(opts.thorough());
     let foots = footers();
     let mut idx: u64 = 0;
     typed_histories::<B>(opts, rep);
+    related_keys::<B>(opts, rep);
     for p in [Purp::Local, Purp::Public] {
         let stream = format!("c01.{}.{}", B::NAME, p.name());
         // --- keys: generated, re-parsed from text, edge keys
@@ -463,7 +512,7 @@ pub fn run(opts: &Opts) {
     for_backends!(opts, backend, opts, &mut rep);
     rep.set(
         "rule",
-        json!("cases = (backend, purpose, sealing key, payload, footer, assertion) sealed with encrypt/sign (library randomness); distinct = distinct input tuples (the 'repeat' class seals one tuple N times to vary the RNG outcome and therefore counts once); typed-history: per shard one key object and one thread carry a sequence of steps drawn from {seal that must be refused after the encoder produced output (failing Serialize impl, non-string map keys, failing payload / footer encoders), unseal that must fail, JSON claims + JSON footer round trip (footer bytes = serde_json, claims and footer equal, parse->Display identical), raw round trip, raw footer holding non-canonically spelled JSON opened through Json<Value> / a lossy footer type}"),
+        json!("cases = (backend, purpose, sealing key, payload, footer, assertion) sealed with encrypt/sign (library randomness); distinct = distinct input tuples (the 'repeat' class seals one tuple N times to vary the RNG outcome and therefore counts once); related-keys: 32 keys one byte apart used back to back, then all their tokens opened forwards and backwards; typed-history: per shard one key object and one thread carry a sequence of steps drawn from {seal that must be refused after the encoder produced output (failing Serialize impl, non-string map keys, failing payload / footer encoders), unseal that must fail, JSON claims + JSON footer round trip (footer bytes = serde_json, claims and footer equal, parse->Display identical), raw round trip, raw footer holding non-canonically spelled JSON opened through Json<Value> / a lossy footer type}"),
     );
     rep.finish(opts);
 }
